@@ -1,11 +1,12 @@
 import Ogen.ValidateModel_proof
 import Ogen.SecurityMask_proof
+import Ogen.FloatValidate_proof
 /-!
 # C03 — the server accepts a body exactly when it satisfies the schema (partial)
 
 Proved here: the leaf validators generated code calls (`validate.Int`, `validate.Array.ValidateLength`
 — also used for string lengths in code points —, `validate.Object.ValidateProperties`,
-`validate.UniqueItems`) decide the JSON Schema keywords they stand for, for **every** value (every int64
+`validate.UniqueItems`, and `validate.Float` over the exact rational values of doubles) decide the JSON Schema keywords they stand for, for **every** value (every int64
 including `minInt64`, arrays of any length), and the required-field bit mask of generated struct decoders
 reports a failure exactly when a required field is missing, for any number of fields.
 Not proved: the composition schema → IR → generated decoder (that a keyword is translated to the right
@@ -44,4 +45,17 @@ theorem required_mask_iff (seen : Sec.Bitset) (requiredIdx : List Nat) :
 example : intValidate ⟨⟨true, -10, false, false, 0, false⟩, true, 3⟩ (BitVec.ofInt 64 (-9)) = .ok := by decide
 example : intValidate ⟨⟨false, 0, false, false, 0, false⟩, true, 2⟩ (BitVec.ofInt 64 (-9223372036854775808)) = .ok := by decide
 example : uniqueItems [1, 2, 1] = false := by decide
+/-- **`validate.Float.Validate`** accepts exactly the finite doubles that satisfy minimum/maximum (exclusive or
+    not) and are an integer multiple of `multipleOf`, over the exact rational value of the double (the code
+    itself tests divisibility in `big.Rat`); NaN and the infinities are refused -/
+theorem float_validate_iff (c : FloatV.Cfg) (v : Rat) (hm : c.multSet = true → c.mult ≠ 0) :
+    FloatV.validate c (.fin v) = true ↔ FloatV.Valid c v := FloatV.validate_iff c v hm
+theorem float_validate_nonfinite (c : FloatV.Cfg) :
+    FloatV.validate c .nan = false ∧ FloatV.validate c .inf = false := FloatV.validate_nonfinite c
+
+/-! non-vacuity: 0.75 is a multiple of 0.25 within [0, 1); 0.1 (the double) is not a multiple of 1/10 -/
+example : FloatV.validate ⟨true, 0, false, true, 1, true, true, 1 / 4⟩ (FloatV.ofBits 0x3fe8000000000000) = true := by
+  decide +kernel
+example : FloatV.validate ⟨false, 0, false, false, 0, false, true, 1 / 10⟩ (FloatV.ofBits 0x3fb999999999999a) = false := by
+  decide +kernel
 end C03
